@@ -700,7 +700,8 @@ Lemma perm_covers ord rules : Permutation ord [0; 1; 2; 3; 4] ->
 Proof.
   intros Hp Hv r Hr. rewrite Forall_forall in Hv. destruct (Hv r Hr) as [V N].
   apply (Permutation_in _ (Permutation_sym Hp)).
-  unfold sys_valid in V. destruct (s_trigger r <? 0)%float; [discriminate|].
+  unfold sys_valid in V. destruct (negb (s_trigger r =? s_trigger r)%float); [discriminate|].
+  destruct (s_trigger r <? 0)%float; [discriminate|].
   destruct (Z.leb_spec 5 (s_metric r)); [discriminate|].
   assert (s_metric r = 0 \/ s_metric r = 1 \/ s_metric r = 2 \/ s_metric r = 3 \/ s_metric r = 4) by lia.
   cbn [In]. intuition.
